@@ -28,8 +28,13 @@ RULE = ("getB: random ndim 2/3 (and ndim 4 -> ValueError), nshape 1..9, small-in
         "empty, subsets, node, duplicates, all), bcdiagval None/integer, add_constant None/csc/csr/coo/dense, "
         "matrix_type csc/csr/coo -> exact comparison of the dense matrix and (coo, no constant) of the raw triplets; "
         "a float variant in tolerance mode; physical: AssembleStiffness/Mass/Poisson end to end with x in [0,1]; "
-        "malformed: wrong len(x), bc index >= n, bad plane, nu = -1, 1/2, 1, 2-D with plane='3d'. "
+        "malformed: wrong len(x), bc index >= n, bad plane, nu = -1, 1/2, 1, 2-D with plane='3d'; "
+        "sens: AssembleGeneral._sensitivity with integer dense / DyadCarrier / symmetric-dyad / empty-carrier seeds, bc sets, "
+        "constants, real data, complex x + complex element matrix, real x with complex element matrix and seed (np.real path): "
+        "sensitivity, the seed after the call (in-place bc masking) compared exactly with the model; oracle <W, A(x+v)-A(x)> = "
+        "<sens(W), v> and second call on the changed seed gives the same result. "
         "distinct = distinct generating parameter sets (hash of the full case) whose result is not identically zero")
+EXTRA_LEAN_MODULES = ("PymotoVerif.Props.C01Assembly",)   # adjoint theorems of this family (property C01)
 ASSUMPTIONS = [
     "1-D domains (nely = 0) are outside the property's quantifier and are not generated; get_B with n_dim = 1 is not modelled",
     "bc indices are non-negative integers (negative indices are rejected by scipy and are not modelled / not generated)",
@@ -384,6 +389,12 @@ def oracle_case(gen):
         if r[0] == "err":
             return []
         return property_oracles(g)
+    if op == "sens":
+        r = call_impl(run_sens, gen)
+        if r[0] == "err":
+            return [f"sensitivity raises {r[2][:300]}"]
+        why = oracle_sens(gen, r[1])
+        return [why] if why else []
     if op not in ("general", "physical"):
         return []
     out = []
@@ -933,6 +944,258 @@ def stream_malformed(ctx, batch):
         batch.add(req, cost, cb)
 
 
+# ------------------------------------------------------------------------------------------------
+# AssembleGeneral._sensitivity (model ops c08.sens): dense and DyadCarrier seeds, bc sets, constants,
+# complex data; oracle: <W, A(x+v) - A(x)> == <sens(W), v>, seed change idempotent
+# ------------------------------------------------------------------------------------------------
+def _cx(v):
+    v = complex(v)
+    return [q(v.real), q(v.imag)]
+
+
+def _enc(a, cx):
+    a = np.asarray(a)
+    if cx:
+        return [_enc(r, cx) for r in a] if a.ndim > 1 else [_cx(v) for v in a.tolist()]
+    return qlist(a.real if np.iscomplexobj(a) else a)
+
+
+def _dec(v, cx):
+    """model answer -> list of exact python numbers (Fraction or (Fraction, Fraction))"""
+    if cx:
+        if isinstance(v, list) and len(v) == 2 and not isinstance(v[0], list):
+            return (fr(v[0]), fr(v[1]))
+        return [_dec(w, cx) for w in v]
+    return frlist(v)
+
+
+def _exact(a, cx):
+    a = np.asarray(a)
+    if a.ndim > 1:
+        return [_exact(r, cx) for r in a]
+    if cx:
+        return [(Fraction(complex(v).real), Fraction(complex(v).imag)) for v in a.tolist()]
+    return [Fraction(float(np.real(v))) for v in a.tolist()]
+
+
+def _canon_num(v):
+    if isinstance(v, tuple):
+        return [str(v[0]), str(v[1])]
+    if isinstance(v, list):
+        return [_canon_num(w) for w in v]
+    return str(v)
+
+
+def _rint(rng, lo=-3, hi=3, nonzero=False):
+    v = rng.randint(lo, hi)
+    while nonzero and v == 0:
+        v = rng.randint(lo, hi)
+    return v
+
+
+def gen_sens(ctx):
+    rng = ctx.rng
+    gen = gen_general(ctx, True)
+    gen["op"] = "sens"
+    gen["dtype"] = "float"
+    K = len(gen["elmat"])
+    nel = len(gen["x"])
+    n = K // (2 ** _dim(gen)) * (gen["nelx"] + 1) * (gen["nely"] + 1) * (gen["nelz"] + 1)
+    mode = rng.choice(["real", "real", "real", "cx", "realx"])   # cx: complex x; realx: real x, complex elmat/seed
+    gen["mode"] = mode
+    cplx = mode != "real"
+    if cplx:
+        gen["elmat_im"] = [[_rint(rng, -2, 2) for _ in range(K)] for _ in range(K)]
+    if mode == "cx":
+        gen["x_im"] = [_rint(rng, -2, 2) for _ in range(nel)]
+    gen["v"] = [_rint(rng, -3, 3) for _ in range(nel)]
+    if mode == "cx":
+        gen["v_im"] = [_rint(rng, -2, 2) for _ in range(nel)]
+    seed = rng.choice(["dense", "dense", "dyad", "dyad", "dyad_sym", "empty"])
+    gen["seed"] = seed
+    if seed == "dense":
+        gen["W"] = [[_rint(rng) for _ in range(n)] for _ in range(n)]
+        if cplx:
+            gen["W_im"] = [[_rint(rng, -2, 2) for _ in range(n)] for _ in range(n)]
+    elif seed in ("dyad", "dyad_sym"):
+        nd = rng.randint(1, 3)
+        gen["us"] = [[_rint(rng) for _ in range(n)] for _ in range(nd)]
+        for u in gen["us"]:
+            u[rng.randrange(n)] = _rint(rng, nonzero=True)
+        if cplx:
+            gen["us_im"] = [[_rint(rng, -2, 2) for _ in range(n)] for _ in range(nd)]
+        if seed == "dyad":
+            gen["vs"] = [[_rint(rng) for _ in range(n)] for _ in range(nd)]
+            for u in gen["vs"]:
+                u[rng.randrange(n)] = _rint(rng, nonzero=True)
+    if gen.get("bcdiag", "default") == "default" and cplx:
+        gen["bcdiag"] = 1      # np.max of a complex element matrix is not part of the model
+    return gen
+
+
+def _sens_arrays(gen):
+    cplx = gen["mode"] != "real"
+    Ke = np.array(gen["elmat"], dtype=float)
+    if cplx:
+        Ke = Ke + 1j * np.array(gen["elmat_im"], dtype=float)
+    x = np.array(gen["x"], dtype=float)
+    v = np.array(gen["v"], dtype=float)
+    if gen["mode"] == "cx":
+        x = x + 1j * np.array(gen["x_im"], dtype=float)
+        v = v + 1j * np.array(gen["v_im"], dtype=float)
+    return Ke, x, v
+
+
+def _sens_module(gen, Ke, x):
+    pm = _pm()
+    dom = _domain(gen)
+    sx = pm.Signal('x', np.array(x))
+    kw = {}
+    if gen.get("bc") is not None:
+        kw["bc"] = np.array(gen["bc"], dtype=int) if gen.get("bc_np") else list(gen["bc"])
+    if gen.get("bcdiag", "default") != "default":
+        kw["bcdiagval"] = gen["bcdiag"]
+    if gen.get("addc") is not None:
+        kw["add_constant"] = build_addc(gen["addc"], _nsize_sens(gen))
+    if gen.get("mtype", "default") != "default":
+        kw["matrix_type"] = MT[gen["mtype"]]
+    m = pm.AssembleGeneral(sx, domain=dom, element_matrix=Ke, **kw)
+    m.response()
+    return m, sx, dom
+
+
+def _nsize_sens(gen):
+    return len(gen["elmat"]) // (2 ** _dim(gen)) * (gen["nelx"] + 1) * (gen["nely"] + 1) * (gen["nelz"] + 1)
+
+
+def _make_seed(gen):
+    """returns (seed object, dense equivalent W0)"""
+    pm = _pm()
+    cplx = gen["mode"] != "real"
+    if gen["seed"] == "dense":
+        W = np.array(gen["W"], dtype=float)
+        if cplx:
+            W = W + 1j * np.array(gen["W_im"], dtype=float)
+        return W, W.copy()
+    if gen["seed"] == "empty":
+        return pm.DyadCarrier(), np.zeros((_nsize_sens(gen),) * 2)
+    us = [np.array(u, dtype=float) for u in gen["us"]]
+    if cplx:
+        us = [u + 1j * np.array(ui, dtype=float) for u, ui in zip(us, gen["us_im"])]
+    if gen["seed"] == "dyad_sym":
+        D = pm.DyadCarrier(us)
+        vs = us
+    else:
+        vs = [np.array(u, dtype=float) for u in gen["vs"]]
+        D = pm.DyadCarrier(us, vs)
+    W0 = sum(np.outer(u, w) for u, w in zip(us, vs))
+    return D, W0
+
+
+def run_sens(gen):
+    """real code: sensitivity, the seed after the call, a second call (idempotence), and the adjoint pairing"""
+    Ke, x, v = _sens_arrays(gen)
+    m, sx, dom = _sens_module(gen, Ke, x)
+    seed, W0 = _make_seed(gen)
+    m.sig_out[0].sensitivity = seed
+    m.sensitivity()
+    dx = sx.sensitivity
+    out = {"dx": None if dx is None else np.array(dx).copy()}
+    if gen["seed"] == "dense":
+        out["seed_after"] = np.array(seed).copy()
+    elif gen["seed"] != "empty":
+        out["us_after"] = [np.array(u).copy() for u in seed.u]
+        out["vs_after"] = [np.array(u).copy() for u in seed.v]
+    # second call with the (already changed) seed object
+    sx.reset()
+    m.sig_out[0].sensitivity = seed
+    m.sensitivity()
+    dx2 = sx.sensitivity
+    out["dx2"] = None if dx2 is None else np.array(dx2).copy()
+    # adjoint pairing on the real code:  <W0, A(x+v) - A(x)>  vs  <dx, v>
+    A0 = dense_of(m.sig_out[0].state)
+    m2, _, _ = _sens_module(gen, Ke, x + v)
+    A1 = dense_of(m2.sig_out[0].state)
+    lhs = complex(np.sum(W0 * (A1 - A0)))
+    rhs = 0j if dx is None else complex(np.sum(np.asarray(dx) * v))
+    out["lhs"], out["rhs"] = lhs, rhs
+    return out
+
+
+def oracle_sens(gen, out):
+    """property C01 on the real code (exact on this integer data)"""
+    if gen["seed"] == "empty":
+        return None if out["dx"] is None else "empty DyadCarrier seed produced a sensitivity"
+    lhs, rhs = out["lhs"], out["rhs"]
+    if gen["mode"] == "realx":
+        lhs = complex(lhs.real, 0.0)
+        if abs(rhs.imag) > 0:
+            return f"sensitivity of a real x is complex: {rhs}"
+    if lhs != rhs:
+        return f"<W, A(x+v) - A(x)> = {lhs} but <sens(W), v> = {rhs}"
+    if out["dx2"] is None or not np.array_equal(out["dx"], out["dx2"]):
+        return f"second sensitivity() call with the same seed object gives {None if out['dx2'] is None else out['dx2'].tolist()}, first gave {out['dx'].tolist()}"
+    return None
+
+
+def stream_sens(ctx):
+    n = 40 if ctx.quick else 500
+    gens, impls, reqs = [], [], []
+    for _ in range(n):
+        gen = gen_sens(ctx)
+        r = call_impl(run_sens, gen)
+        if r[0] == "err":
+            ctx.disagree("sens", short_case("sens", gen), r[1], "ok", r[2])
+            continue
+        out = r[1]
+        why = oracle_sens(gen, out)
+        if why:
+            ctx.oracle_fail(why, gen)
+        cplx = gen["mode"] != "real"
+        Ke, _, _ = _sens_arrays(gen)
+        req = {"m": "c08.sens", "nelx": gen["nelx"], "nely": gen["nely"], "nelz": gen["nelz"], "elmat": _enc(Ke, cplx),
+               "bc": gen["bc"], "cx": cplx, "xreal": gen["mode"] == "realx",
+               "seed": "dense" if gen["seed"] == "dense" else "dyad"}
+        seed, W0 = _make_seed(gen)
+        if gen["seed"] == "dense":
+            req["W"] = _enc(W0, cplx)
+        elif gen["seed"] == "empty":
+            req.update(shape_set=False, us=[], vs=[])
+        else:
+            req.update(shape_set=True, us=[_enc(u, cplx) for u in seed.u], vs=[_enc(u, cplx) for u in seed.v])
+        gens.append(gen)
+        impls.append(out)
+        reqs.append(req)
+        ctx.branch(f"sens.{gen['seed']}.{gen['mode']}.bc_{gen['bckind']}")
+    res = ctx.model(reqs)
+    for gen, out, req, ans in zip(gens, impls, reqs, res):
+        case = {"stream": "sens", "gen": gen}
+        key = _key("sens", gen)
+        if "ok" not in ans:
+            ctx.disagree("sens", case, "ok", ans, "model error")
+            continue
+        a = ans["ok"]
+        cplx = gen["mode"] != "real"
+        if gen["seed"] == "empty":
+            ctx.compare_exact("sens", case, out["dx"] is None, a["dx"] is None, key=key)
+            continue
+        res_cx = cplx and gen["mode"] == "cx"
+        impl = {"dx": _canon_num(_exact(out["dx"], cplx))}
+        model = {"dx": _canon_num(_dec(a["dx"], cplx))}
+        if gen["seed"] == "dense":
+            impl["seed_after"] = _canon_num(_exact(out["seed_after"], cplx))
+            model["seed_after"] = _canon_num(_dec(a["seed_after"], cplx))
+        else:
+            impl["us_after"] = _canon_num([_exact(u, cplx) for u in out["us_after"]])
+            impl["vs_after"] = _canon_num([_exact(u, cplx) for u in out["vs_after"]])
+            model["us_after"] = _canon_num(_dec(a["us_after"], cplx))
+            model["vs_after"] = _canon_num(_dec(a["vs_after"], cplx))
+        ctx.compare_exact("sens", case, impl, model, key=key)
+    if reqs:
+        ctx.sample({"request": {k: v for k, v in reqs[0].items() if k not in ("elmat", "W", "us", "vs")},
+                    "impl_dx": np.asarray(impls[0]["dx"]).tolist() if impls[0]["dx"] is not None else None})
+
+
 def correspondence(ctx):
     batch = Batch()
     stream_getB(ctx, batch)
@@ -942,6 +1205,7 @@ def correspondence(ctx):
     stream_physical(ctx, batch)
     stream_malformed(ctx, batch)
     batch.run(ctx)
+    stream_sens(ctx)
 
 
 # ------------------------------------------------------------------------------------------------
@@ -1004,7 +1268,7 @@ def replay(ctx, data):
     w = data.get("witness", {})
     if isinstance(w, dict) and isinstance(w.get("witness"), dict):
         w = w["witness"]
-    if not isinstance(w, dict) or w.get("op") not in ("general", "physical", "elmat", "getD"):
+    if not isinstance(w, dict) or w.get("op") not in ("general", "physical", "elmat", "getD", "sens"):
         return {"still_failing": False, "note": "replay file names no failing input (see no_longer_checks)"}
     r = call_impl(oracle_case, w)
     whys = [f"oracle raised {r[2][:300]}"] if r[0] == "err" else r[1]
